@@ -18,9 +18,9 @@ func init() {
 		ID:    "C01",
 		Title: "Acknowledged writes are returned exactly as written",
 		Decides: "the acknowledgement chain is synchronous: a batch's introduction is published before its waiter is released (close(applied) only after the snapshot replacement, or after recording a rejection), mustAddMemPart returns only after receiving from applied or after undoing the batch, the in-process publisher's Close waits for the future, the liaison replies only after publisher.Close() and does not reply SUCCEED for a batch whose Close reported an error; " +
-			"value-type tables agree between the write path, the column/tag encoders and every decoder (row and batch); the row-parallel slices of a batch (series ids, timestamps, versions, tags, fields, …) are all touched by Swap / skip / reset, so sorting and de-duplication never re-label rows.",
+			"value-type tables agree between the write path, the column/tag encoders and every decoder (row and batch); the row-parallel slices of a batch (series ids, timestamps, versions, tags, fields, …) are all touched by Swap / skip / reset, so sorting and de-duplication never re-label rows.; in the six data-node receive loops an event that switches the metadata also replaces or clears the spec carried over from earlier events of the batch (a point is decoded with the spec in force for its own resource)",
 		NotDecided: "bit-exact equality of returned values (the 1-ulp decimal float case), criteria coverage, 'returns nothing that was not written', block-split arithmetic.",
-		Technique:  "CFG must-precede on channel operations and resolved calls, phi-edge constant analysis of reply codes, case-set agreement across writer/encoder/decoder siblings, struct-field coverage of parallel arrays",
+		Technique:  "CFG must-precede on channel operations and resolved calls, phi-edge constant analysis of reply codes, case-set agreement across writer/encoder/decoder siblings, struct-field coverage of parallel arrays; per-iteration path enumeration of paired loop-carried updates (metadata ⇒ spec)",
 		Run:        runC01,
 	})
 }
@@ -34,6 +34,17 @@ func isRecvOn(field string) ssax.Matcher {
 
 func runC01(c *core.Ctx) {
 	r := newR(c)
+	// 0. the receive loops decode a point with the spec in force for ITS metadata: an event that switches
+	// the metadata also replaces (or clears) the spec carried over from earlier events of the batch
+	for _, s := range sibsMST {
+		for _, typ := range []string{"writeCallback", "writeQueueCallback"} {
+			if f := r.fn("c01.spec-follows-metadata", s.pkg, "(*"+typ+").Rev"); f != nil {
+				r.pairedLoopUpdate("c01.spec-follows-metadata", f, "metadata", "spec",
+					"the point of the new resource is decoded through the previous resource's spec (tag and field positions of another schema): what is stored and indexed is not what was written")
+			}
+		}
+	}
+	r.Floor("c01.spec-follows-metadata", 6)
 	// 1a. mustAddMemPart / mustAddFilePart wait for applied (or undo)
 	for _, s := range sibsMST {
 		for _, name := range []string{"(*tsTable).mustAddMemPart", "(*tsTable).mustAddFilePart"} {
